@@ -170,6 +170,15 @@ def hash_env(salt=0, **extra):
     return env
 
 
+def _with_line(frame):
+    """Is the line about to run a `with` statement?  The interpreter reports that line a second time when the block is left,
+    just before it calls __exit__; an exception raised from the trace function there would skip __exit__ (a lock would stay
+    held for ever) - something a real KeyboardInterrupt cannot do, because CPython does not deliver signals at that point.
+    Interruptions are therefore never injected on such a line (the next line is taken instead)."""
+    import linecache
+    return linecache.getline(frame.f_code.co_filename, frame.f_lineno).lstrip().startswith(("with ", "async with "))
+
+
 def interrupted_call(fn, at, suffixes=("permuta/",)):
     """Run fn(); a KeyboardInterrupt is raised at the at-th line executed in a source file whose path contains one of
     `suffixes` (library code, where its tables are changed).  Returns ("done", value) when fn finished first,
@@ -181,7 +190,8 @@ def interrupted_call(fn, at, suffixes=("permuta/",)):
     def local(frame, event, arg):
         if event == "line":
             seen[0] += 1
-            if seen[0] == at:
+            if seen[0] >= at and not _with_line(frame):
+                seen[0] = -10 ** 9
                 raise KeyboardInterrupt("%s:%d" % (frame.f_code.co_name, frame.f_lineno))
         return local
 
